@@ -105,6 +105,102 @@ Section Chain.
   Qed.
 End Chain.
 
+(* ====================================================================== IFORM's column-wise evaluation = the row-wise chain *)
+Section Columns.
+  Variable T : Type.
+  Variable dflt : T.
+  Local Notation chain := (chain T dflt).
+  Local Notation chain_cols := (chain_cols T dflt).
+  Local Notation col_of := (col_of T dflt).
+  Local Notation given_of := (given_of T dflt).
+  Local Notation at_ k := (fun c : list T => nth k c dflt).
+
+  Lemma nth_map_in : forall {A B} (f : A -> B) (l : list A) k (da : A) (db : B), k < length l ->
+     nth k (map f l) db = f (nth k l da).
+  Proof. intros A B f l k da db H. rewrite (nth_indep (map f l) db (f da)) by (now rewrite map_length). apply map_nth. Qed.
+
+  Lemma col_of_at : forall d pc cols n k, k < n -> length pc = n -> Forall (fun c => length c = n) cols ->
+     nth k (col_of d pc cols) dflt = icdf T d (nth k pc dflt) (given_of d (map (at_ k) cols)).
+  Proof.
+    intros d pc cols n k Hk Hpc Hcols. unfold Iform.col_of, Iform.given_of. destruct (cond d) as [j|].
+    - set (dc := map (fun _ : T => dflt) pc).
+      assert (Ldc : length dc = n) by (unfold dc; now rewrite map_length).
+      assert (Lg : length (nth j cols dc) = n).
+      { destruct (Nat.lt_ge_cases j (length cols)) as [L|L].
+        - rewrite Forall_forall in Hcols. apply Hcols, nth_In, L.
+        - now rewrite nth_overflow. }
+      rewrite (nth_map_in _ _ k (dflt, dflt)) by (rewrite combine_length; lia).
+      rewrite combine_nth by lia. cbn [fst snd]. f_equal. f_equal.
+      assert (Hd : at_ k dc = dflt).
+      { unfold dc. destruct (Nat.lt_ge_cases k (length pc)) as [L|L].
+        - now rewrite (nth_map_in _ _ k dflt).
+        - apply nth_overflow. now rewrite map_length. }
+      rewrite <- Hd at 2. symmetry. apply (map_nth (at_ k)).
+    - now rewrite (nth_map_in _ _ k dflt) by lia.
+  Qed.
+
+  Lemma col_of_length : forall d pc cols n, length pc = n -> Forall (fun c => length c = n) cols -> length (col_of d pc cols) = n.
+  Proof.
+    intros d pc cols n Hpc Hcols. unfold Iform.col_of. destruct (cond d) as [j|]; rewrite map_length; [|exact Hpc].
+    rewrite combine_length. destruct (Nat.lt_ge_cases j (length cols)) as [L|L].
+    - rewrite Forall_forall in Hcols. rewrite (Hcols _ (nth_In _ _ L)). lia.
+    - rewrite nth_overflow by exact L. rewrite map_length. lia.
+  Qed.
+
+  Lemma chain_cols_rows : forall ds pcs cols n k, k < n ->
+     Forall (fun c => length c = n) pcs -> Forall (fun c => length c = n) cols ->
+     map (at_ k) (chain_cols ds pcs cols) = chain ds (map (at_ k) pcs) (map (at_ k) cols).
+  Proof.
+    induction ds as [|d ds IH]; intros pcs cols n k Hk Hp Hc; [reflexivity|].
+    destruct pcs as [|pc pcs]; [reflexivity|]. cbn [Iform.chain_cols Iform.chain map].
+    inversion Hp as [|? ? Hpc Hpcs]; subst.
+    rewrite (IH pcs (cols ++ [col_of d pc cols]) (length pc) k Hk Hpcs).
+    - rewrite map_app. cbn [map]. now rewrite (col_of_at d pc cols (length pc) k Hk eq_refl Hc).
+    - apply Forall_app. split; [exact Hc|]. constructor; [|constructor]. now apply col_of_length.
+  Qed.
+
+  Lemma seq_nth_map : forall {A B} (f : A -> B) (l : list A) (da : A), map (fun k => f (nth k l da)) (seq 0 (length l)) = map f l.
+  Proof.
+    intros A B f l da. induction l as [|a l IH]; [reflexivity|]. cbn [length seq map nth].
+    f_equal. rewrite <- seq_shift, map_map. exact IH.
+  Qed.
+
+  Lemma cols_of_at : forall (rows : list (list T)) nd k, k < length rows -> length (nth k rows []) = nd ->
+     map (at_ k) (cols_of T dflt nd rows) = nth k rows [].
+  Proof.
+    intros rows nd k Hk Hl. unfold Iform.cols_of. rewrite map_map.
+    rewrite (map_ext _ (fun i => nth i (nth k rows []) dflt)).
+    - rewrite <- Hl. rewrite (seq_nth_map (fun x => x) (nth k rows []) dflt). apply map_id.
+    - intros i. now rewrite (nth_map_in _ _ k []).
+  Qed.
+
+  (* for a rectangular matrix of probabilities the column-wise evaluation returns, row for row, the row-wise chain
+     (no hypothesis on conditional_on: a column not written yet reads as dflt in both) *)
+  Theorem chain_cols_is_chain : forall ds (P : list (list T)), Forall (fun r => length r = length ds) P ->
+     rows_of_cols T dflt (length P) (chain_cols ds (cols_of T dflt (length ds) P) []) = map (fun r => chain ds r []) P.
+  Proof.
+    intros ds P HP. unfold Iform.rows_of_cols.
+    rewrite <- (seq_nth_map (fun r => chain ds r []) P []).
+    apply map_ext_in. intros k Hk. apply in_seq in Hk. destruct Hk as [_ Hk]. cbn in Hk.
+    rewrite (chain_cols_rows ds _ [] (length P) k Hk).
+    - cbn [map]. f_equal. apply cols_of_at; [exact Hk|]. rewrite Forall_forall in HP. apply HP, nth_In, Hk.
+    - unfold Iform.cols_of. apply Forall_forall. intros c Hc. apply in_map_iff in Hc. destruct Hc as [i [<- _]]. apply map_length.
+    - constructor.
+  Qed.
+
+  Variable mul : T -> T -> T.
+  Variable Phi : T -> T.
+  Theorem contour_vec_is_contour : forall ds b units, Forall (fun u => length u = length ds) units ->
+     contour_vec_of T dflt mul Phi ds b units = contour_of T dflt mul Phi ds b units.
+  Proof.
+    intros ds b units Hu. unfold Iform.contour_vec_of, Iform.contour_of. cbv zeta. f_equal.
+    rewrite <- (map_length (map Phi) (scale T mul b units)). rewrite chain_cols_is_chain.
+    - now rewrite map_map.
+    - unfold scale. apply Forall_forall. intros r Hr. apply in_map_iff in Hr. destruct Hr as [sp [<- Hsp]].
+      apply in_map_iff in Hsp. destruct Hsp as [u [<- Hin]]. rewrite !map_length. rewrite Forall_forall in Hu. now apply Hu.
+  Qed.
+End Columns.
+
 (* ====================================================================== the instance over R *)
 Local Open Scope R_scope.
 
@@ -311,6 +407,58 @@ Section NSphereInv.
     destruct H as [_ [_ [C D]]]; [unfold inv; cbn [fst snd]; auto|]. split; assumption.
   Qed.
 End NSphereInv.
+
+(* ---------------------------------------------------------------- NSphere keeps the visited state of least potential energy *)
+Section BestState.
+  Variable forces : list (list R) -> list (list R).
+  Variable pot : list (list R) -> R.
+  Definition Rstep (it : nat) (xs : list (list R)) : list (list R) := Rrelax_step (tau_of R 3 Rdiv INR it) (forces xs) xs.
+  (* the states the loop walks through after the initial one *)
+  Fixpoint visited (its : list nat) (xs : list (list R)) : list (list (list R)) :=
+    match its with [] => [] | it :: r => Rstep it xs :: visited r (Rstep it xs) end.
+  Local Notation Rloop := (relax_loop R 0 3 Rplus Rminus Rmult Rdiv sqrt Rltb INR forces pot).
+
+  Lemma relax_iter_step : forall xs best it,
+     relax_iter R 0 3 Rplus Rminus Rmult Rdiv sqrt Rltb INR forces pot (xs, best, pot best) it =
+     if Rlt_dec (pot (Rstep it xs)) (pot best) then (Rstep it xs, Rstep it xs, pot (Rstep it xs)) else (Rstep it xs, best, pot best).
+  Proof. intros. unfold relax_iter, Rltb, Rstep, Rrelax_step. destruct (Rlt_dec _ _); reflexivity. Qed.
+
+  Lemma relax_loop_best : forall its xs best,
+     let st := Rloop its (xs, best, pot best) in
+     snd st = pot (snd (fst st)) /\ (snd (fst st) = best \/ In (snd (fst st)) (visited its xs)) /\
+     snd st <= pot best /\ Forall (fun s => snd st <= pot s) (visited its xs).
+  Proof.
+    unfold relax_loop. induction its as [|it its IH]; intros xs best; cbn [fold_left visited].
+    - cbn [fst snd]. repeat split; auto; lra.
+    - rewrite relax_iter_step.
+      destruct (Rlt_dec (pot (Rstep it xs)) (pot best)) as [L|L].
+      + destruct (IH (Rstep it xs) (Rstep it xs)) as [A [B [C D]]]. cbv zeta in *.
+        split; [exact A|]. split; [destruct B as [B|B]; right; [left; now symmetry|now right]|].
+        split; [lra|]. constructor; assumption.
+      + destruct (IH (Rstep it xs) best) as [A [B [C D]]]. cbv zeta in *.
+        split; [exact A|]. split; [destruct B as [B|B]; [now left|right; now right]|].
+        split; [exact C|]. constructor; [lra|assumption].
+  Qed.
+
+  (* NSphere(dim, n).unit_sphere_points is the initial state or one of the visited states, and no visited state
+     (nor the initial one) has a smaller potential energy *)
+  Theorem nsphere_best : forall randn dim n,
+     let x0 := init_points R 0 Rplus Rmult Rdiv sqrt (randn n dim) in
+     let its := seq 1 (max_iters n - 1) in
+     let res := Rnsphere randn forces pot dim n in
+     In res (x0 :: visited its x0) /\ Forall (fun s => pot res <= pot s) (x0 :: visited its x0).
+  Proof.
+    intros randn dim n x0 its res.
+    destruct (relax_loop_best its x0 x0) as [A [B [C D]]]. cbv zeta in *.
+    assert (E : res = snd (fst (Rloop its (x0, x0, pot x0)))) by reflexivity.
+    rewrite <- E in *. rewrite A in C, D. split.
+    - destruct B as [B|B]; [left; now symmetry|now right].
+    - constructor; assumption.
+  Qed.
+
+  Lemma max_iters_ge : forall n, (10 <= max_iters n)%nat.
+  Proof. intros. unfold max_iters. apply Nat.le_max_l. Qed.
+End BestState.
 
 (* ---------------------------------------------------------------- the 2-D circle *)
 Section Circle.
@@ -546,6 +694,18 @@ Section ContourR.
   Qed.
 End ContourR.
 
+(* IFORM as IFORMContour evaluates it (whole matrix through norm.cdf, then column by column) is the row-wise contour *)
+Definition Riform_vec_with (Phi Phiinv : R -> R) :=
+  iform_vec_with R 0 0 1 (2 * PI) Rplus Rminus Rmult Rdiv INR Phi Phiinv cos sin.
+Lemma iform_vec_is_iform : forall Phi Phiinv nsph ds alpha n,
+   (length ds <> 2%nat -> Forall (fun u => length u = length ds) (nsph (length ds) n)) ->
+   Riform_vec_with Phi Phiinv nsph ds alpha n = Riform_with Phi Phiinv nsph ds alpha n.
+Proof.
+  intros Phi Phiinv nsph ds alpha n H. unfold Riform_vec_with, Riform_with, iform_vec_with, iform_with.
+  apply contour_vec_is_contour. unfold units_of. destruct (Nat.eqb_spec (length ds) 2) as [E|E]; [|auto].
+  rewrite E. apply (unit_rows_lengths 2), circle_unit.
+Qed.
+
 (* ---------------------------------------------------------------- the complete model (NSphere inside) *)
 Definition Riform (Phi Phiinv : R -> R) randn forces pot :=
   iform R 0 0 1 3 (2 * PI) Rplus Rminus Rmult Rdiv sqrt Rltb INR Phi Phiinv cos sin randn forces pot.
@@ -573,6 +733,17 @@ Section Full.
     pose proof (iform_count Phi Phiinv (Rnsphere randn forces pot) ds alpha n UL) as [A [_ B]].
     split; [reflexivity|]. split; [exact A|].
     cbv zeta in D. rewrite Forall_forall in *. intros x Hx. split; [apply B, Hx|apply D, Hx].
+  Qed.
+
+  (* the same for IFORM evaluated the way the code does it (column-wise) *)
+  Theorem iform_vec_full : forall ds alpha n, wf R okp ds -> (length ds <> 2%nat -> randn_ok randn n (length ds)) ->
+     let c := Riform_vec_with Phi Phiinv (Rnsphere randn forces pot) ds alpha n in
+     beta c = Phiinv (1 - alpha) /\ length (coordinates c) = n /\
+     Forall (fun x => length x = length ds /\ Rnorm (map Phiinv (Rrosen ds x)) = Rabs (beta c)) (coordinates c).
+  Proof.
+    intros ds alpha n Hwf Hr. rewrite iform_vec_is_iform.
+    - exact (iform_full ds alpha n Hwf Hr).
+    - intro H. apply (unit_rows_lengths (length ds)). exact (proj1 (nsphere_unit randn forces pot forces_shape (length ds) n (Hr H))).
   Qed.
 
   Theorem isorm_full : forall ds alpha n, wf R okp ds -> (length ds <> 2%nat -> randn_ok randn n (length ds)) ->
